@@ -659,6 +659,22 @@ func (s *Sim) opCodec(op *Op) {
 	if len(ab) != 11 || e4.UnmarshalBinary(ab[3:]) != nil || e4 != e {
 		s.violate("C17", "codec.roundtrip", "append", false, "AppendBinary round trip of %v gave %v", e, e4)
 	}
+	// the marshalers called directly, results of several entities held at the same time
+	other := ecs.Entity{}
+	if len(s.M.Ents) > 1 {
+		other = s.M.Ents[(op.E+1)%len(s.M.Ents)].H
+	}
+	j1, err1 := e.MarshalJSON()
+	j2, err2 := other.MarshalJSON()
+	b1, _ := e.MarshalBinary()
+	b2, _ := other.MarshalBinary()
+	var d1, d2, d3, d4 ecs.Entity
+	if err1 != nil || err2 != nil || d1.UnmarshalJSON(j1) != nil || d2.UnmarshalJSON(j2) != nil || d1 != e || d2 != other {
+		s.violate("C17", "codec.roundtrip", "json_held", false, "MarshalJSON results of %v and %v held at the same time decode to %v and %v (%q, %q)", e, other, d1, d2, j1, j2)
+	}
+	if d3.UnmarshalBinary(b1) != nil || d4.UnmarshalBinary(b2) != nil || d3 != e || d4 != other {
+		s.violate("C17", "codec.roundtrip", "binary_held", false, "MarshalBinary results of %v and %v held at the same time decode to %v and %v", e, other, d3, d4)
+	}
 	j, err := json.Marshal(e)
 	var e3 ecs.Entity
 	if err != nil || json.Unmarshal(j, &e3) != nil || e3 != e {
